@@ -6,6 +6,9 @@ namespace SymEngine
 
 inline hash_t Basic::hash() const
 {
+#if defined(SYMENGINE_VERIF)
+    SYMENGINE_VERIF_YIELD(3);
+#endif
     if (hash_ == 0)
         hash_ = __hash__();
     return hash_;
